@@ -41,8 +41,8 @@ def COST(desc):
 
 def BOUND(tier):
     if tier == "quick":
-        return {"families": {"elec": "n=2..3", "two": "n=2..3", "eph": "n=3", "elec1": "n=1"}, "depth": 2}
-    return {"families": {"elec": "n=1..4", "two": "n=1..4", "eph": "n=2..4", "mixed": "n=3"}, "depth": "3 (n<=3), 2 (n=4)"}
+        return {"families": {"elec": "n=2..3", "two": "n=2..3", "eph": "n=3", "elec1": "n=1"}, "depth": 2, "trees": "plane trees <= 3 nodes (elec, two-component), depth 2, incl. evolve / optimise / truncate"}
+    return {"families": {"elec": "n=1..4", "two": "n=1..4", "eph": "n=2..4", "mixed": "n=3"}, "depth": "3 (n<=2), 2 (n>=3)", "trees": "plane trees <= 4 nodes, depth 2"}
 
 
 def configs(tier):
@@ -61,7 +61,7 @@ def configs(tier):
 def cases(tier, seed):
     for fam, n, sec in configs(tier):
         st, acts = build(fam, n, tuple(sec), seed)
-        depth = 2 if tier == "quick" else (3 if n <= 3 else 2)
+        depth = 2 if tier == "quick" else (3 if n <= 2 else 2)
         for a in acts:
             if tier != "quick" and depth == 3 and ("evolve" in a.name or "optimize" in a.name):
                 # the expensive numerical actions are explored at depth 2 as first action and at any later position of depth-3 runs
